@@ -421,6 +421,11 @@ def r1b_producer(ctx):
         return
     # every regime in which some s-set DOF exists returns the cleared words
     bad = [p for p in plain if not any(app(c, "any") and same(app(c, "any")[0], found[0][2]) and d is False for c, d, _ in p.atoms())]
+    unread = [p for p in bad if any(c is not None and contains(c, found[0][2]) and not app(c, "any") for c, d, _ in p.atoms())]
+    if unread and all(c == sbit for _, _, _, c in found):
+        ctx.error("_rdop2uset: a test on the selected s-set DOF is not recognised (rule knows any(sel) and counts of sel)", unread[0].ret_node,
+                  {"regime": unread[0].describe()})
+        return
     ok = all(c == sbit for _, _, _, c in found) and not bad
     ctx.check(ok, "_rdop2uset clears exactly the NDDL S bit (the bit mkusetmask gives to b) on s-set DOF, in place", found[0][0].ret_node,
               None if ok else {"cleared": [c for _, _, _, c in found], "S bit": sbit, "uncleared regimes": [p.describe() for p in bad]})
@@ -2214,6 +2219,8 @@ def r4_expanddof(ctx):
     asis = [t for t in kinds if t[1] == "as-is"]
     bad, odd = None, None
     for t in asis:
+        if _emptiness(t[0], lambda x: sym_of(_all_items(x)) == dofp) == "empty":
+            continue                # the request itself, reshaped, returned for an empty request: there is no component
         cols = [_col(t[0].ret, 1), _col(t[2], 1)]
         # established: a test of the path says that no component exceeds some bound <= 6
         tests = [(c, d, _exceeds(c)) for c, d in ((_last_axis(c), d) for c, d, _ in t[0].atoms() if c is not None) if any(contains(c, x) for x in cols)]
@@ -2424,6 +2431,8 @@ def r5_index2slice(ctx):
         z = p.decided(F.fn("cmp:Eq", a + 1, F.const(0)))
         if z is None:
             z = p.decided(F.fn("cmp:Eq", a, F.const(-1)))
+        if z is None and p.decided(a + 1) is not None:
+            z = not p.decided(a + 1)        # `if not stop:` - the stop tested by its truth value
         orn = app(b, "bool:Or")         # `stop or None`
         good = same(a, first) and ((sym_of(b) == "None" and z is True) or (same(b, a + 1) and z is False)
                                    or (bool(orn) and len(orn) == 2 and same(orn[0], a + 1) and sym_of(orn[1]) == "None"))
